@@ -691,7 +691,10 @@ class err_gs(err_node):
         if seg_data is None:
             self.st_count_orig = 0
         else:
-            self.st_count_orig = int(seg_data.get_value('GE01'))  # AK902
+            try:
+                self.st_count_orig = int(seg_data.get_value('GE01'))  # AK902
+            except (TypeError, ValueError):
+                self.st_count_orig = 0
         self.st_count_recv = src.st_count  # AK903
         #self.st_count_accept = self.st_count_recv - len(self.children) # AK904
 
